@@ -60,6 +60,18 @@ CHECKS = {
         note=TB + " The spelling policies are the legal-spelling catalogue of the property; byte-level fuzzing is out of scope.",
         technique="TLA+ writer specification enumerated by TLC, round-trip replay through both parsers, trace validation of an independent speller",
     ),
+    "C07": dict(
+        text="FontDecode.tla: ToUnicode CMaps as [width, entries] (bfchar, bfrange with string target incrementing its last UTF-16 "
+             "unit, bfrange with array), Render(cmap, fmt) = the program text under five formatting policies, Decode with the priority "
+             "ToUnicode > BOM > named encoding > raw, UTF-16 with surrogate arithmetic, NFC via a composition table; EncTables.tla = "
+             "reference tables of the six named encodings (asserted only where unambiguous). TLC enumerates all 6x256 table cases, all "
+             "small CMaps x formats, UTF-16 boundary strings and precedence cases; each goes through font.GetEncoding, "
+             "ParseToUnicodeCMap, Font.DecodeString, DecodeUTF16BE/LE; random byte strings through every decoder are validated by "
+             "FontDecodeTrace.tla (reference decoding, valid UTF-8, NFC).",
+        design_ref="4.7",
+        note=TB + " x/text norm is the NFC oracle; WinAnsi/MacRoman tables cross-checked against two on-disk sources, PDFDoc/Standard transcribed from Annex D, Symbol/ZapfDingbats only a handful of entries.",
+        technique="TLA+ decoding reference + rendered CMap programs enumerated by TLC, replay through the font decoders, trace validation",
+    ),
     "C08": dict(
         text="GState.tla is the ISO 32000 graphics/text-state machine (one action per operator). TLC checks its invariants "
              "exhaustively (all programs to a bounded length over a 21-operator alphabet, and refutes the post-multiplying "
